@@ -7,7 +7,7 @@ set -u
 P=$1; WT=$2; OUT=/verif/seeded/$P
 [ -f "$WT/seed/patch.diff" ] || { echo "no patch in $WT/seed"; exit 3; }
 cd "$WT" || exit 3
-git stash -q 2>/dev/null; git checkout -q -- . ; git stash drop -q 2>/dev/null
+git checkout -q -- .   # never `git stash` here: refs/stash is shared by all worktrees of /repo
 git apply --check seed/patch.diff || { echo "PATCH DOES NOT APPLY"; exit 3; }
 echo "== without the change"; bash seed/build.sh > seed/.out_without 2>&1; rc0=$?; echo "demo exit=$rc0"
 git apply seed/patch.diff
